@@ -30,6 +30,7 @@ WSROOT = f"{WORK}/ws{NS}"
 E2E_WORK = f"{WORK}/e2e{NS}"
 BATCH_TARGET = f"{WORK}/target-batch{NS}"
 OBS_ROOT = f"{WORK}/obs{NS}"
+DOC_TARGET = f"{WORK}/doc-target{NS}"
 APP = f"{E2E}/app" if not NS else f"{WORK}/app{NS}"
 PAVEXC_TIMEOUT_S = 120
 
@@ -177,7 +178,12 @@ def ensure_slot(k, root=None):
         f.write("\n".join(lines) + "\n")
     shutil.copy(f"{REPO}/Cargo.lock", f"{s}/Cargo.lock")
     shutil.rmtree(f"{s}/sdk", ignore_errors=True)
-    r = run(["cargo", "metadata", "--offline", "--format-version", "1"], cwd=s)
+    # one shared cargo target dir for the documentation builds of all slots (pavexc takes the
+    # location of the JSON docs from `target_directory` in the metadata): ~1.1 GB once, not per slot
+    e = base_env()
+    e["CARGO_TARGET_DIR"] = DOC_TARGET
+    shutil.rmtree(f"{s}/target", ignore_errors=True)
+    r = run(["cargo", "metadata", "--offline", "--format-version", "1"], cwd=s, env=e)
     # stdout and stderr are merged; metadata is the last line that starts with '{'
     meta = [l for l in r.stdout.splitlines() if l.startswith("{")]
     if r.returncode != 0 or not meta:
@@ -191,6 +197,7 @@ def ensure_slot(k, root=None):
 def pavexc_env(extra=None):
     e = base_env()
     e["HOME"] = HOME
+    e["CARGO_TARGET_DIR"] = DOC_TARGET
     e["PAVEXC_COLOR"] = "never"
     e["PAVEX_TTY_WIDTH"] = "200"
     e.pop("RUST_BACKTRACE", None)
